@@ -67,7 +67,7 @@ Con(c) == IF c <= NS THEN Simple[c]
 (* between two top-level constructs a separating text keeps "{{" from following "{" etc. *)
 Sepr == << P(";", "text") >>
 
-WsVariants == << <<32>>, <<10>>, <<13, 10, 32>>, <<10, 10>> >>
+WsVariants == << <<32>>, <<10>>, <<13, 10, 32>>, <<10, 10>>, <<13>> >>      \* the last: a lone CR is white space and not a line break
 Fill(pieces, ws) == [q \in 1..Len(pieces) |->
                        IF pieces[q][2] = "W" THEN <<WsVariants[ws], "">>
                        ELSE IF pieces[q][2] = "O" THEN <<(IF ws = 1 THEN <<32>> ELSE WsVariants[ws]), "">>
